@@ -210,9 +210,8 @@ static int fileAdvance(MPT_INTERFACE(iterator) *it)
 static int fileReset(MPT_INTERFACE(iterator) *it)
 {
 	MPT_STRUCT(iteratorFile) *d = MPT_baseaddr(iteratorFile, it, _it);
-	int ret;
-	if ((ret = fseek(d->fd, 0, SEEK_SET) < 0)) {
-		return ret;
+	if (fseek(d->fd, 0, SEEK_SET) < 0) {
+		return MPT_ERROR(BadOperation);
 	}
 	clearerr(d->fd);
 	d->type = 0;
